@@ -1132,6 +1132,17 @@ class OpHarness:
         if not is_done:
             inv = self.check_inv(it, ctx, uid, cells_env, s)
             ctx.assume(inv if not isinstance(inv, bool) else z3.BoolVal(inv))
+            live = getattr(c, "live", None)
+            if live and len(c.sources) > 1:
+                # source grammar: the source whose handler runs has not terminated before (it emits nothing after its terminal)
+                env_l = self.inv_env(it, cells_env, s)
+                env_l.vars["i"] = list(c.sources).index(source)
+                ctx.spec += 1
+                try:
+                    t = it.truth_term(self.eval_src(it, live, env_l))
+                finally:
+                    ctx.spec -= 1
+                ctx.assume(t if not isinstance(t, bool) else z3.BoolVal(t))
         # fresh traces
         self.begin_step(w, cells_env, s)
         if is_done:
